@@ -645,6 +645,53 @@ def run_base58(case):
     return out
 
 
+# ---- part 2b: every Base58 string of 1..3 characters, and truncated-checksum encodings (exhaustive) --------------------
+
+B58_ALPHABET = "123456789ABCDEFGHJKLMNPQRSTUVWXYZabcdefghijkmnopqrstuvwxyz"
+
+
+def enum_short(tier, shard, nshards):
+    import itertools
+    i = 0
+    for n in (1, 2, 3):
+        for t in itertools.product(B58_ALPHABET, repeat=n):
+            i += 1
+            if i % nshards == shard:
+                yield {"text": "".join(t)}
+    # payload + the first k bytes of its checksum, for short payloads (all one- and two-byte payloads are too many: sample)
+    for plen in (0, 1, 2, 3, 20, 21):
+        for v in range(0, 256 if plen else 1, 5):
+            payload = bytes([v]) * plen
+            for k in (0, 1, 2, 3):
+                i += 1
+                if i % nshards == shard:
+                    yield {"text": B58.encode(payload + B58.checksum(payload)[:k]) or "1", "short_checksum": k}
+
+
+def run_short(case):
+    out = Out()
+    Base58 = _lbry()["Base58"]
+    text = case["text"]
+    try:
+        want = B58.decode_check(text)
+    except B58.Base58RefError:
+        want = None
+    try:
+        got = bytes(Base58.decode_check(text))
+    except Exception as e:
+        got = None
+        out.label("rejected_" + type(e).__name__)
+    if want is None and got is not None:
+        out.violate("short-base58check-accepted", "%r -> %s (no valid 4-byte checksum in it)" % (text, got.hex()))
+    elif want is not None:
+        _cmp(out, got == want, "base58check:valid-short-string-rejected-or-differs", "%r -> %r, reference %s" % (
+            text, got.hex() if got is not None else None, want.hex()))
+        out.label("valid_by_reference")
+    out.label("len_%d" % min(len(text), 4), "short_checksum" if "short_checksum" in case else "enumerated")
+    out.nontrivial = True
+    return out
+
+
 # ------------------------------------------------------------------------------------------------------------
 # part 3: mnemonic
 # ------------------------------------------------------------------------------------------------------------
@@ -991,6 +1038,8 @@ PARTS = [
     Part("base58", lambda tier: base58_case(), run_base58, 3000, 30000, quick_shards=1, thorough_shards=4,
          essential=("zeros_0", "zeros_1", "zeros_4", "corrupt_sub", "corrupt_swap", "corrupt_del", "len_0",
                     "len_51-100")),
+    Part("base58_short", None, run_short, 0, 0, quick_shards=4, thorough_shards=8, enumerate_cases=enum_short,
+         essential=("len_1", "len_2", "len_3", "short_checksum")),
     Part("mnemonic", lambda tier: mnemonic_case(), run_mnemonic, 600, 6000, quick_shards=2, thorough_shards=8,
          essential=("int", "seed", "low_word_zero", "variant_accent_nfc", "variant_accent_nfd", "variant_upper",
                     "bits_264", "bits_000")),
